@@ -489,6 +489,14 @@ class ScanInterp(CutInterp):
         st['pos'][k] = (stream, ladd(pos, tot) if l is not None else Sym(ctx.fresh('pos'), 'long'))
         return cnt
 
+    def e_ImplicitCastExpr(self, n, env):
+        v = CutInterp.e_ImplicitCastExpr(self, n, env)
+        if n.cast_kind == 'ArrayToPointerDecay' and isinstance(v, Arr):
+            st = self._st()
+            if id(v) in st['chunk']:
+                return st['chunk'][id(v)][1]
+        return v
+
     def place(self, n, env):
         m = n.strip() if n.kind == 'ParenExpr' else n
         if m.kind == 'ArraySubscriptExpr' and self._is_char(m):
@@ -800,10 +808,10 @@ def r183_running(P, u, rep, F, rule='R18.3'):
     hg = assigned_globals(u, loop_reach | {fn})
     hg = {k: t for k, t in hg.items() if '*' not in t and '[' not in t}
     # the constructor: the function the loop reaches that returns a token built from (start, end) and (itself or through callees) stores the stamp
-    cands = [f for f in sorted(loop_reach) if _ret_token(u.functions[f]) and len(_char_params(u, f)) >= 2 and F in closure(calls, [f])]
+    cands = [f for f in sorted(loop_reach) if _ret_token(u.functions[f]) and len(_char_params(u, f)) >= 2]
     ctor = min(cands, key=lambda f: (len(closure(calls, [f])), f)) if cands else None
     makers = [f for f in sorted(loop_reach) if _ret_token(u.functions[f]) and f != ctor and f != fn and _char_params(u, f)
-              and not (ctor is None and f == F)]
+              and (ctor is None or ctor in closure(calls, [f]))]
     wr_glob = assigned_globals(u, closure(calls, makers, stop=[ctor] if ctor else []))
 
     def cut_maker(it, ctx, call, args):
@@ -1200,3 +1208,83 @@ def _has_both(lp):
                 if _is_const(n.inner[0], c) or _is_const(n.inner[1], c):
                     has.add(c)
     return has == {92, 10}
+
+
+# --------------------------------------------------------------------------------------------- reads inside a piece of input
+def _nocast(key):
+    """a value key with integer casts removed (a length kept in an int)"""
+    if isinstance(key, tuple):
+        if len(key) == 3 and key[0] == 'term' and isinstance(key[1], str) and key[1].startswith('cast:'):
+            return _nocast(key[2])
+        return tuple(_nocast(k) for k in key)
+    return key
+
+
+def _lf(key):
+    """linear form of a value key: (const, {leaf key: coef}) or None"""
+    key = _nocast(key)
+    if isinstance(key, bool):
+        return (int(key), {})
+    if isinstance(key, int):
+        return (key, {})
+    if isinstance(key, tuple) and key and key[0] == 'lin':
+        return (key[1], {k: c for k, c in key[2:]})
+    if isinstance(key, tuple) and key and key[0] in ('sym', 'term'):
+        return (0, {key: 1})
+    return None
+
+
+def piece_overrun(ctx, addr, base, n):
+    """is the byte read at addr inside the piece [base, base + n) of input on this path?
+    -> True (the path's conditions establish it), False (no condition of the path bounds it), None (cannot tell)"""
+    T = lin(lsub(lsub(addr, base), n))           # must be <= -1
+    if T is None:
+        return None
+    tt = {k: c for k, (c, leaf) in T.terms.items()}
+    ub = None
+    unknown = False
+    leaves = set(tt)
+    for key, truth in ctx.facts.items():
+        key = _nocast(key)
+        if not (isinstance(key, tuple) and len(key) == 4 and key[0] == 'term' and key[1] in ('<', '<=', '>', '>=', '==', '!=')):
+            if leaves and all(_contains(key, k) for k in leaves if k != base.key()):
+                unknown = True
+            continue
+        a, b = _lf(key[2]), _lf(key[3])
+        if a is None or b is None:
+            if all(_contains(key, k) for k in leaves if k != base.key()):
+                unknown = True
+            continue
+        d = dict(a[1])
+        for k, c in b[1].items():
+            d[k] = d.get(k, 0) - c
+        d = {k: c for k, c in d.items() if c}
+        dc = a[0] - b[0]
+        if d == tt:
+            sgn = 1
+        elif d == {k: -c for k, c in tt.items()}:
+            sgn = -1
+        else:
+            if d and all(k in d for k in leaves if k != base.key()):
+                unknown = True
+            continue
+        op = key[1]
+        if not truth:
+            op = {'<': '>=', '<=': '>', '>': '<=', '>=': '<', '==': '!=', '!=': '=='}[op]
+        # sgn*X + c0 op 0   with X = T - T.c, c0 = dc - sgn*T.c  ->  bound on T
+        c0 = dc - sgn * T.c
+        # sgn*(T - T.c) + dc ... rewrite as sgn*T + c0 op 0
+        if sgn == -1:
+            op = {'<': '>', '<=': '>=', '>': '<', '>=': '<=', '==': '==', '!=': '!='}[op]
+            c0 = -c0
+        # now T + c0 op 0
+        bnd = None
+        if op == '<':
+            bnd = -c0 - 1
+        elif op in ('<=', '=='):
+            bnd = -c0
+        if bnd is not None:
+            ub = bnd if ub is None else min(ub, bnd)
+    if ub is not None and ub <= -1:
+        return True
+    return None if unknown else False
